@@ -268,6 +268,44 @@ OPS = [
 ]
 
 
+def r_blanket_release(ck: Checker) -> None:
+    """After _attach_inner has claimed a child, a child that was an attached root before the call and one that was detached before the call
+    look alike (registered, parent = the new node).  A clean-up loop that detaches the claimed children *unconditionally* therefore
+    removes from the registry sub-trees that were attached before the rejected operation began (positive pattern: `x.detach()` /
+    `x.detach_self()` on the elements of an enumeration of the children, under no condition on x other than where to stop, on a path that raises)."""
+    n = 0
+    for q in ("_attach", "attach", "__post_init__", "replace", "replace_with"):
+        f = ck.repo.func(LNODE, f"{CLS}.{q}")
+        fn = f.raw or f.node
+        n += 1
+        what = f"{CLS}.{q}: a rejected operation does not detach children wholesale (which of them were attached before cannot be told afterwards)"
+        bad = None
+        for lp in ast.walk(fn):
+            if not (isinstance(lp, ast.For) and isinstance(lp.target, ast.Name)):
+                continue
+            if not any(k in norm(lp.iter) for k in ("get_child_nodes", "children", "iter_child_fields", "dfs(", "bfs(")):
+                continue
+            t = lp.target.id
+            for st in lp.body:  # top level of the loop body only: a guarded detach is not this pattern
+                if isinstance(st, ast.Expr) and isinstance(st.value, ast.Call) and isinstance(st.value.func, ast.Attribute) \
+                        and st.value.func.attr in ("detach", "detach_self") and norm(st.value.func.value) == t:
+                    # the loop must sit on a failing path: a raise follows it in the same block or it is inside a handler
+                    par = {id(c): p_ for p_ in ast.walk(fn) for c in ast.iter_child_nodes(p_)}
+                    blk = par.get(id(lp))
+                    sibs = []
+                    for fld in ("body", "orelse", "finalbody"):
+                        b_ = getattr(blk, fld, None)
+                        if isinstance(b_, list) and lp in b_:
+                            sibs = b_[b_.index(lp) + 1:]
+                    if any(isinstance(s_, ast.Raise) for s_ in sibs) or isinstance(blk, ast.ExceptHandler):
+                        bad = (st, norm(lp.iter)[:40])
+        if bad:
+            ck.violation("R-LEG-ROLLBACK", f, bad[0], what, positive=True,
+                         construct=f"{CLS}.{q}: {norm(bad[0])} for every element of {bad[1]} before raising — children that were attached roots before the call are unregistered together with their sub-trees")
+        else:
+            ck.holds("R-LEG-ROLLBACK", f, f.node, what)
+
+
 def r_rollback(ck: Checker) -> None:
     c = ck.repo.cls(LNODE, CLS)
     methods = {st.name: ck.repo.func(LNODE, f"{CLS}.{st.name}").node for st in c.node.body if isinstance(st, ast.FunctionDef) and st.name in SUMMARY_CONFIRM}
@@ -479,6 +517,7 @@ def run(ck: Checker) -> None:
                        "a raising helper call leaves its own partial effects to its own analysis (reported at the helper)",
                        "compensation calls inside except handlers do not fail themselves"]
     ck.guard("R-LEG-ROLLBACK", lambda: r_rollback(ck))
+    ck.guard("R-LEG-ROLLBACK", lambda: r_blanket_release(ck))
     ck.guard("R-LEG-PRECHECK", lambda: r_prechecks(ck))
     ck.guard("R-LEG-CLONE", lambda: r_clone(ck))
     ck.guard("R-LEG-CLONE", lambda: r_clone_collections(ck))
